@@ -10,3 +10,4 @@ pub mod reconnect;
 pub mod names;
 pub mod mtls;
 pub mod stall;
+pub mod frames;
